@@ -121,10 +121,33 @@ def run(ctx):
         return
     if not ctx.go_build():
         return
-    ctx.diff_stream("rules", ctx.n(700, 20000), oracle=oracle, nontrivial=_nontrivial)
-    ctx.diff_stream("sem", ctx.n(500, 12000), oracle=oracle, nontrivial=_nontrivial)
-    ctx.diff_stream("packets", ctx.n(900, 25000), oracle=oracle, nontrivial=_nontrivial)
+    ctx.diff_stream("rules", ctx.n(3000, 40000), oracle=oracle, nontrivial=_nontrivial)
+    ctx.diff_stream("sem", ctx.n(2000, 25000), oracle=oracle, nontrivial=_nontrivial)
+    ctx.diff_stream("packets", ctx.n(4000, 60000), oracle=oracle, nontrivial=_nontrivial)
     _oracle_all(ctx)
+    # distribution of what the real rules did with the generated packets, and of the configuration classes
+    for st in ("sem", "packets"):
+        impl = os.path.join(ctx.work, "%s.run.impl" % st)
+        if os.path.exists(impl):
+            for l in ctx.read_lines(impl):
+                if l.startswith("pass"):
+                    f = l.split()
+                    kind = "tproxy" if f[1] != "tproxy=-" else ("redirect" if f[2] != "redirect=-" else "untouched")
+                    ctx.count("%s.fate.%s" % (st, kind))
+                elif l in ("drop", "loop"):
+                    ctx.count("%s.fate.%s" % (st, l))
+    ops = os.path.join(ctx.work, "rules.gen.ops")
+    if os.path.exists(ops):
+        for l in ctx.read_lines(ops):
+            if l.startswith("cfg "):
+                f = l.split()
+                ctx.count("rules.cfg.mode." + ("tproxy" if f[6] == "TPROXY" else "redirect"))
+                ctx.count("rules.cfg.ipv6." + f[21])
+                ctx.count("rules.cfg.dns." + f[18])
+                ctx.count("rules.cfg.include." + ("wildcard" if f[14] == "*" else ("none" if f[14] == "~" else "cidrs")))
+                ctx.count("rules.cfg.inbound." + ("wildcard" if f[8] == "*" else ("none" if f[8] == "~" else "ports")))
+                ctx.count("rules.cfg.kubevirt." + ("0" if f[16] == "~" else "1"))
+                ctx.count("rules.cfg.ownergroups." + ("default" if (f[10] == "*" and f[11] == "~") else "filtered"))
 
 
 def replay(ctx, path):
@@ -152,8 +175,23 @@ def replay(ctx, path):
 
 
 MANIFEST = {
-    "level_text": "work in progress",
-    "level_note": "work in progress",
+    "level_text": ("Lean 4 proof of compiler correctness for the istio-iptables rule compiler: `compile` (a branch-for-branch model of "
+                   "IptablesConfigurator.Run + the rule builder, REDIRECT and TPROXY, IPv4 and IPv6, DNS capture, kube-virt interfaces, "
+                   "owner-group filters, drop-invalid) evaluated under a netfilter semantics written from the iptables manual gives, for "
+                   "EVERY configuration and EVERY packet, exactly the fate the policy prescribes (`fate_correct`); from it: no_loop, "
+                   "outbound_exact (IFF), inbound_exact (IFF, REDIRECT and TPROXY), loopback_alone, never_chain_loop, v4_v6_same_policy, "
+                   "proxy DNS not re-captured. The model is tied to /repo on every run: the real Run() output must equal the Lean "
+                   "compiler's output line for line, and a Go reference interpreter over the real rule text must agree with both the "
+                   "Lean semantics and the Lean policy on boundary packets; a Go oracle states the clauses directly on the real rules."),
+    "level_note": ("Trusted: Lean kernel + {propext, Classical.choice, Quot.sound}; the hand-written compiler model (tied by line-equality "
+                   "differential testing on ~3000 random configurations quick / 40000 thorough) and the netfilter semantics "
+                   "(Netfilter.lean, from the iptables manual pages; no kernel in the sandbox - cross-checked only against a second, "
+                   "independently written interpreter in the harness); harness, generators, oracle. Assumed: rules restored into empty "
+                   "tables; sockets have owners; identities/interfaces are canonical tokens; CONNMARK state across packets, policy "
+                   "routing, nftables backend, FillConfigFromEnvironment not modelled. Five recorded corners (DNS port 53 on lo, "
+                   "inbound excludes ignored with an explicit list, 2nd proxy UID shadowed, GID block lacks the DNS variant, TPROXY "
+                   "mode does not exempt the tunnel port) are proved as witnesses and replayed on the real rule text; none is a defect "
+                   "fixed or listed."),
     "technique": "Lean 4 compiler-correctness theorems (capture configuration -> iptables rules -> netfilter semantics) + differential correspondence with the real Go compiler",
     "design_ref": "DESIGN.md section 5 C20",
 }
